@@ -42,6 +42,9 @@ const (
 	c19MinLen   = 16
 	c19KnownFp  = "rotate-drops-fp"
 	c19KnownBuf = "write-retains-slice"
+	// c19NameMax: NAME_MAX. A log whose backup name would be longer cannot be rotated (finding 7,
+	// repaired in 27c55f0: NewLogger refuses the configuration)
+	c19NameMax = 255
 	c19GlobMeta = "*?[\\"
 	c19MaxDays  = 106751 // 24h * days still fits a time.Duration
 	c19GStride  = 10000  // record id = (entry point*4 + goroutine)*stride + sequence number
@@ -125,6 +128,27 @@ type c19Case struct {
 	Mode  string    `json:"mode,omitempty"`
 	G     int       `json:"g,omitempty"`
 	Val   bool      `json:"val,omitempty"` // logx modes: every third record is logged as a struct value, not a string
+	// Api: logx modes: "" the records go to the entry points of the concreteWriter that newFileWriter
+	// built; "pkg" the package is set up with logx.Setup(Config) and the records are logged through
+	// the package-level functions (Info, Infof, Infov, Infow, Debug*, Error*, ErrorStack*, Alert,
+	// Severe*, Slow*, Stat*), the writer is closed with logx.Close.
+	Api string `json:"api,omitempty"`
+	Vol string `json:"vol,omitempty"` // Api pkg: volume mode with this service name (logs in Path/<name>/<hostname>)
+	Lvl string `json:"lvl,omitempty"` // Api pkg: Config.Level
+	Tf  string `json:"tf,omitempty"`  // Api pkg: Config.TimeFormat
+	// Gf: logx modes: global fields, added with one AddGlobalFields call per element (element = number of fields)
+	Gf []int `json:"gf,omitempty"`
+	// Fl: logx modes: fields given with the records: 0 none; 1 every fourth record carries one field;
+	// 2 every fourth carries two; 3 one record in four carries one, another one two
+	Fl int `json:"fl,omitempty"`
+	// Bad: logx modes: right before Close a value that cannot be encoded is logged (1 NaN, 2 a channel);
+	// the statement is silent about it: no panic, no hang, the records stay judged
+	Bad int `json:"bad,omitempty"`
+	// Refuse: direct mode: a configuration NewLogger cannot honour ("file-is-dir", "parent-is-file",
+	// "name-256"): it may only return an error (no record is accepted); panics / hangs only
+	Refuse string `json:"refuse,omitempty"`
+	// Flood: this many further Write calls after Close (beyond the writer's channel capacity): must return
+	Flood int       `json:"flood,omitempty"`
 	Steps []c19Step `json:"steps"`
 }
 
@@ -381,6 +405,9 @@ type c19Log struct {
 	gone               map[int]bool   // record id -> its backup was removed by a justified clean-up
 	tolerated          map[int]bool
 	rotations          int
+	// tooLong: the backup name of this log is longer than a file name may be; gzTooLong: only
+	// with the ".gz" of a compressed backup
+	tooLong, gzTooLong bool
 }
 
 type c19Env struct {
@@ -388,6 +415,19 @@ type c19Env struct {
 	dir   string
 	logs  []*c19Log
 	cache map[string]*c19File // backups and other files are immutable once the writer is quiescent
+	// foreignOK: an unencodable value has been logged; what the package writes for it (nothing, on
+	// the tree as it is) is not determined by the statement, so lines without a record header are
+	// skipped from then on
+	foreignOK bool
+	// optional: records that may have been filtered by Config.Level before they reached a writer
+	optional map[int]bool
+}
+
+func (e *c19Env) parse(b []byte) ([]c19Parsed, string) {
+	if e.c.Mode != "" {
+		return e.parseLines(b)
+	}
+	return c19Parse(b, "")
 }
 
 func (e *c19Env) addLog(base string, start time.Time) *c19Log {
@@ -482,7 +522,7 @@ func (e *c19Env) snapshot() (c19Snap, string) {
 				}
 			}
 			if f.perr == "" {
-				f.recs, f.perr = c19Parse(f.data, e.c.Mode)
+				f.recs, f.perr = e.parse(f.data)
 			}
 		}
 		s[f.name] = f
@@ -571,6 +611,17 @@ func c19Run(c c19Case, root string, r *c19Result) {
 			sibDir = filepath.Join(sibDir, "svc")
 		}
 	}
+	volBase := e.dir
+	if c.Api == "pkg" && c.Vol != "" && c.Mode != "" {
+		// volume mode: the logs live in <Path>/<ServiceName>/<hostname>
+		host, _ := os.Hostname()
+		e.dir = filepath.Join(e.dir, c.Vol, host)
+		if sibDir != "" {
+			sibDir = filepath.Join(sibDir, c.Vol, host)
+		}
+		r.classes["volume-mode"] = true
+	}
+	e.optional = map[int]bool{}
 	failf := func(format string, a ...any) {
 		if r.fail == "" {
 			r.fail = fmt.Sprintf(format, a...)
@@ -635,9 +686,26 @@ func c19Run(c c19Case, root string, r *c19Result) {
 		}
 	}
 
+	for _, lg := range e.logs {
+		n := len(e.backupName(lg, start, false))
+		lg.tooLong = n > c19NameMax
+		lg.gzTooLong = !lg.tooLong && lg.comp && n+len(gzipExt) > c19NameMax
+		if lg.tooLong {
+			r.classes["backup-name-too-long"] = true
+		} else if lg.gzTooLong {
+			r.classes["backup-name-too-long-gz-only"] = true
+		} else if n > c19NameMax-16 {
+			r.classes["backup-name-near-NAME_MAX"] = true
+		}
+	}
+
 	// ---- pre-existing files
 	pre := map[string][]byte{} // name -> raw content (must stay byte-identical while present)
+	var keepDirs []string      // directories named like outdated backups: never removed
 	write := func(name string, b []byte) {
+		if len(name) > c19NameMax {
+			return // not a name a file can have
+		}
 		pre[name] = b
 		if err := os.WriteFile(filepath.Join(e.dir, name), b, 0o600); err != nil {
 			failf("setup: %v", err)
@@ -659,7 +727,7 @@ func c19Run(c c19Case, root string, r *c19Result) {
 			}
 			lg := e.logs[p.F%len(e.logs)]
 			name := e.backupName(lg, bt, lg.gz)
-			if _, dup := pre[name]; dup {
+			if _, dup := pre[name]; dup || len(name) > c19NameMax {
 				continue
 			}
 			b := oldRec(oldID(lg.idx), 40)
@@ -668,9 +736,90 @@ func c19Run(c c19Case, root string, r *c19Result) {
 			}
 			write(name, b)
 		}
+		oldest := 10
+		for _, p := range c.Pre {
+			if p.Age > oldest {
+				oldest = p.Age
+			}
+		}
 		for _, u := range c.Unrel {
+			isDir := false
+			if strings.HasPrefix(u, "@") {
+				// names that look like backups of log 0 but are not well-formed ones, and a
+				// directory named like a well-formed, outdated backup
+				lg := e.logs[0]
+				at := start.Add(-9 * 24 * time.Hour)
+				if c.Rule == "daily" {
+					at = c19Day(start).AddDate(0, 0, -9)
+				}
+				wf := e.backupName(lg, at, false)
+				mid := func(x string) string {
+					if c.Rule == "daily" {
+						return lg.base + c.Delim + x
+					}
+					return lg.prefix + c.Delim + x + lg.ext
+				}
+				switch u {
+				case "@mal-month":
+					u = mid("1999-13-45")
+					if c.Rule == "size" {
+						u = mid("1999-13-45T00:00:00Z")
+					}
+				case "@mal-bak":
+					u = wf + ".bak"
+				case "@mal-old":
+					u = mid(at.Format(c19DateOnly) + "-old")
+					if c.Rule == "size" {
+						u = mid(at.Format(time.RFC3339) + "-old")
+					}
+				case "@mal-word":
+					u = mid("notes")
+				case "@mal-kind": // the other rule's way of naming
+					u = mid(at.Format(time.RFC3339))
+					if c.Rule == "size" {
+						u = mid(at.Format(c19DateOnly))
+					}
+				case "@mal-gzgz":
+					u = wf + ".gz.gz"
+				case "@dir":
+					if c.Api == "pkg" && c.Rule == "size" {
+						// every failed removal is reported through the global writer into error.log;
+						// with limits of a few hundred bytes that line could rotate error.log a second
+						// time within the second, which the statement excludes
+						continue
+					}
+					dt := start.Add(-time.Duration(oldest+5) * 24 * time.Hour)
+					if c.Rule == "daily" {
+						dt = c19Day(start).AddDate(0, 0, -oldest-5)
+					}
+					u, isDir = e.backupName(lg, dt, lg.gz), true
+				default:
+					continue
+				}
+				if len(u) > c19NameMax {
+					continue
+				}
+				if !isDir {
+					r.classes["backup-like-name-not-well-formed"] = true
+				}
+			}
+			if isDir {
+				d := filepath.Join(e.dir, u)
+				if _, dup := pre[u]; dup {
+					continue
+				}
+				if err := os.MkdirAll(d, 0o755); err == nil {
+					if err = os.WriteFile(filepath.Join(d, "keep"), []byte("keep\n"), 0o600); err == nil {
+						keepDirs = append(keepDirs, d)
+						r.classes["directory-named-like-outdated-backup"] = true
+					}
+				}
+				continue
+			}
 			if k, _, _, _ := e.classify(u); k == c19Other {
-				write(u, []byte("unrelated "+u+"\n"))
+				if _, dup := pre[u]; !dup {
+					write(u, []byte("unrelated "+u+"\n"))
+				}
 			}
 		}
 		// bait: files named like old backups of a log whose name the glob pattern built from
@@ -740,6 +889,9 @@ func c19Run(c c19Case, root string, r *c19Result) {
 				if c.Rule == "daily" {
 					bt = c19Day(start).AddDate(0, 0, -age)
 				}
+				if len(e.backupName(lg, bt, c.Gzip)) > c19NameMax {
+					continue
+				}
 				p := filepath.Join(sibDir, e.backupName(lg, bt, c.Gzip))
 				sib[p] = []byte("sibling " + p + "\n")
 				if err := os.WriteFile(p, sib[p], 0o600); err != nil {
@@ -783,6 +935,26 @@ func c19Run(c c19Case, root string, r *c19Result) {
 		r.classes["unclean-path-"+c.Sp] = true
 	}
 	filename := spell(e.dir, e.logs[0].base)
+	refuse := c.Refuse
+	if c.Ln != "" || len(c.PreCur) > 0 || c.Via || c.Nb != nil {
+		refuse = ""
+	}
+	if c.Mode == "" && refuse != "" {
+		// a configuration that cannot be honoured: the only thing the statement allows is that no
+		// record is accepted (NewLogger returns an error); run for panics, hangs and leaks
+		os.MkdirAll(e.dir, 0o755)
+		switch refuse {
+		case "file-is-dir":
+			os.MkdirAll(e.logs[0].path, 0o755)
+		case "parent-is-file":
+			os.WriteFile(filepath.Join(e.dir, "plainfile"), []byte("x\n"), 0o600)
+			filename = filepath.Join(e.dir, "plainfile", e.logs[0].base)
+		case "name-256":
+			filename = filepath.Join(e.dir, strings.Repeat("N", c19NameMax+1))
+		default:
+			refuse = ""
+		}
+	}
 	var rule RotateRule
 	maxSize := int64(c.MaxSize)
 	if c.Rule == "daily" {
@@ -821,12 +993,89 @@ func c19Run(c c19Case, root string, r *c19Result) {
 		if c.Rule == "size" {
 			conf.Rotation, conf.MaxSize, conf.MaxBackups = sizeRotationRule, 1, c.MaxBackups
 		}
-		w, e2 := newFileWriter(conf)
-		if e2 != nil {
-			failf("newFileWriter: %v", e2)
+		switch refuse {
+		case "no-path":
+			conf.Path = ""
+		case "path-is-file":
+			os.WriteFile(filepath.Join(root, "afile"), []byte("x\n"), 0o600)
+			conf.Path, volBase = filepath.Join(root, "afile"), filepath.Join(root, "afile")
+		case "no-service": // volume mode without a service name (Api pkg)
+			if c.Api != "pkg" || c.Vol == "" {
+				refuse = ""
+			}
+		default:
+			refuse = ""
+		}
+		// global fields: one AddGlobalFields call per element of Gf
+		globalFields = atomic.Value{}
+		defer func() { globalFields = atomic.Value{} }()
+		gk := 0
+		for _, n := range c.Gf {
+			var fs []LogField
+			for j := 0; j < n; j++ {
+				fs = append(fs, Field(fmt.Sprintf("g%d", gk), fmt.Sprintf("G%d", gk)))
+				gk++
+			}
+			AddGlobalFields(fs...)
+		}
+		if gk > 0 {
+			r.classes[fmt.Sprintf("global-fields-%d-calls-%d", gk, len(c.Gf))] = true
+		}
+		var w Writer
+		var e2 error
+		if c.Api == "pkg" {
+			// the way a service uses the package: logx.Setup(Config), then the package-level functions
+			conf.Encoding, conf.Level, conf.TimeFormat = c.Mode, c.Lvl, c.Tf
+			if c.Vol != "" {
+				conf.Mode, conf.ServiceName = volumeMode, c.Vol
+				if refuse == "no-service" {
+					conf.ServiceName = ""
+				}
+				if refuse == "" {
+					conf.Path = spell(volBase, "")
+				}
+			}
+			savedTF := timeFormat
+			setupOnce = sync.Once{}
+			atomic.StoreUint32(&logLevel, 0)
+			atomic.StoreUint32(&disableLog, 0)
+			writer.Store(nil)
+			defer func() {
+				Disable()
+				timeFormat = savedTF
+				setupOnce = sync.Once{}
+			}()
+			e2 = Setup(conf)
+			w = writer.Load()
+			r.classes["api-pkg"] = true
+			if c.Lvl != "" {
+				r.classes["level-"+c.Lvl] = true
+			}
+			if c.Tf != "" {
+				r.classes["custom-time-format"] = true
+			}
+		} else {
+			w, e2 = newFileWriter(conf)
+		}
+		if refuse != "" {
+			r.classes["refuse-"+refuse] = true
+			if e2 != nil {
+				r.classes["config-refused"] = true
+			} else if cl, ok := w.(io.Closer); ok && cl != nil {
+				r.classes["refuse-"+refuse+"-accepted"] = true
+				cl.Close()
+			}
 			return
 		}
-		cw = w.(*concreteWriter)
+		if e2 != nil {
+			failf("newFileWriter / Setup: %v", e2)
+			return
+		}
+		var isCw bool
+		if cw, isCw = w.(*concreteWriter); !isCw {
+			failf("Setup installed a %T, not the file writer", w)
+			return
+		}
 		for i, out := range []io.WriteCloser{cw.infoLog, cw.errorLog, cw.severeLog, cw.slowLog, cw.statLog} {
 			rl, ok := out.(*RotateLogger)
 			if !ok {
@@ -840,6 +1089,14 @@ func c19Run(c c19Case, root string, r *c19Result) {
 		}
 		l = e.logs[0].l
 		closeAll = cw.Close
+		if c.Api == "pkg" {
+			closeAll = func() error {
+				err := Close() // logx.Close
+				Close()        // nothing installed any more: a no-op
+				writer.Store(nopWriter{})
+				return err
+			}
+		}
 		r.classes["mode-"+c.Mode] = true
 	} else if c.Via {
 		// the path taken by logx.SetUp in file mode: options -> createOutput
@@ -852,6 +1109,10 @@ func c19Run(c c19Case, root string, r *c19Result) {
 		out, e2 := createOutput(filename)
 		options = saved
 		if e2 != nil {
+			if e.logs[0].tooLong || e.logs[0].gzTooLong {
+				r.classes["config-refused"] = true
+				return
+			}
 			failf("createOutput: %v", e2)
 			return
 		}
@@ -865,7 +1126,17 @@ func c19Run(c c19Case, root string, r *c19Result) {
 		}
 		r.classes["via-createOutput"] = true
 	} else if l, err = NewLogger(filename, rule, c.Compress); err != nil {
+		if refuse != "" || e.logs[0].tooLong || e.logs[0].gzTooLong {
+			// no writer, no accepted record: the statement holds vacuously
+			r.classes["config-refused"] = true
+			return
+		}
 		failf("NewLogger: %v", err)
+		return
+	} else if refuse != "" {
+		r.classes["refuse-"+refuse+"-accepted"] = true
+		kit.Wait()
+		l.Close()
 		return
 	}
 	// reopen: what a restarted process does: a new rule and a new writer on the same file
@@ -994,6 +1265,15 @@ func c19Run(c c19Case, root string, r *c19Result) {
 				}
 			}
 		}
+		// a directory is not a backup, whatever its name
+		for _, d := range keepDirs {
+			if b, err := os.ReadFile(filepath.Join(d, "keep")); err != nil || string(b) != "keep\n" {
+				if !retFail("%s: directory %s (named like an outdated backup) or the file in it was removed", what, d) {
+					return false
+				}
+				break
+			}
+		}
 		// (a) no current file is ever removed
 		for _, lg := range e.logs {
 			if cur[lg.base] == nil {
@@ -1004,6 +1284,12 @@ func c19Run(c c19Case, root string, r *c19Result) {
 		// all files that parse as log files: no damaged content
 		if recordsJudged {
 			for _, f := range cur {
+				if f.kind != c19Other && strings.HasPrefix(f.perr, c19FieldMix) {
+					// finding 8 (global-fields-shared-backing, repaired in dc42baf): nothing is tolerated
+					failf("%s: file %s: %s (global fields added in %d call(s), spare capacity %d, %d goroutine(s))",
+						what, f.name, strings.TrimPrefix(f.perr, c19FieldMix), len(c.Gf), c19GlobalSpare(c.Gf), c.G)
+					return false
+				}
 				if f.kind != c19Other && f.perr != "" {
 					if !recFail("%s: file %s holds an incomplete or damaged record: %s", what, f.name, f.perr) {
 						return false
@@ -1041,7 +1327,7 @@ func c19Run(c c19Case, root string, r *c19Result) {
 					rotated = true
 					b := make([]byte, hfi.Size())
 					if n, _ := lg.held.ReadAt(b, 0); n == len(b) {
-						recs, _ := c19Parse(b, c.Mode)
+						recs, _ := e.parse(b)
 						for _, p := range recs {
 							oldRecs[p.id] = true
 						}
@@ -1187,7 +1473,7 @@ func c19Run(c c19Case, root string, r *c19Result) {
 							}
 							continue
 						}
-						if lg.gone[id] || lg.tolerated[id] {
+						if lg.gone[id] || lg.tolerated[id] || e.optional[id] {
 							continue
 						}
 						// missing: find a justification
@@ -1202,6 +1488,12 @@ func c19Run(c c19Case, root string, r *c19Result) {
 							lg.gone[id] = true
 							r.classes["backup-outdated-at-birth"] = true
 							continue
+						}
+						if lg.tooLong {
+							// finding 7 (repaired in 27c55f0, nothing is tolerated): the writer accepted a
+							// configuration whose rotations cannot rename the file
+							return recFail("%s: record %d was accepted and processed but is in no file of %s; the backup name of this log (%d bytes) is longer than a file name may be, so the rotation fails at os.Rename",
+								what, id, lg.base, len(e.backupName(lg, now, false)))
 						}
 						if lg.l.fp == nil && (rotated || lg.rotations > 0) {
 							// characterises finding rotate-drops-fp (fixed in 5dfdeaa)
@@ -1291,7 +1583,11 @@ func c19Run(c c19Case, root string, r *c19Result) {
 				lg.rotations++
 				r.rotations++
 				if lg.idx > 0 {
-					r.classes["rotated-"+lg.base] = true
+					if c.Mode == "" {
+						r.classes["rotated-neighbour"] = true
+					} else {
+						r.classes["rotated-"+lg.base] = true
+					}
 				}
 				lg.periodLo, lg.periodHi = stepStart, now
 				if lg.held != nil {
@@ -1337,6 +1633,10 @@ func c19Run(c c19Case, root string, r *c19Result) {
 			kit.Wait()
 			nl, err := reopen()
 			if err != nil {
+				if e.logs[0].tooLong || e.logs[0].gzTooLong {
+					r.classes["config-refused"] = true
+					return
+				}
 				failf("step %d: NewLogger on the existing file: %v", i, err)
 				return
 			}
@@ -1348,7 +1648,72 @@ func c19Run(c c19Case, root string, r *c19Result) {
 		}
 		first := count[0] + 1
 		stepStart = time.Now()
-		if c.Mode == "" {
+		if c.Mode == "" && c.G > 1 {
+			// several goroutines call Write of the one writer (an io.Writer fed by a channel);
+			// records are numbered per goroutine, the order is judged per goroutine
+			type emit struct{ id, n int }
+			per := make([][]emit, c.G)
+			for k, n := range st.Lens {
+				if n == 0 {
+					continue
+				}
+				key := k % c.G
+				count[key]++
+				per[key] = append(per[key], emit{key*c19GStride + count[key], n})
+			}
+			var wg sync.WaitGroup
+			var mu sync.Mutex
+			werr := ""
+			for gi := 0; gi < c.G; gi++ {
+				wg.Add(1)
+				go func(list []emit) {
+					defer wg.Done()
+					var shared []byte
+					for k, em := range list {
+						rec := c19Rec(em.id, em.n)
+						if c.Buf == "reuse" {
+							if cap(shared) < em.n {
+								shared = make([]byte, 0, em.n+1024)
+							}
+							shared = shared[:em.n]
+							copy(shared, rec)
+							rec = shared
+						}
+						w, err := l.Write(rec)
+						if err != nil || w != em.n {
+							mu.Lock()
+							werr = fmt.Sprintf("Write of record %d before Close returned (%d, %v)", em.id, w, err)
+							mu.Unlock()
+							return
+						}
+						switch {
+						case c.Buf == "zero":
+							for j := range rec {
+								rec[j] = 0
+							}
+						case c.Buf == "reuse" && k == len(list)-1:
+							for j := range rec {
+								rec[j] = '#'
+							}
+						}
+					}
+				}(per[gi])
+			}
+			wg.Wait()
+			if werr != "" {
+				failf("step %d: %s", i, werr)
+				return
+			}
+			r.classes["direct-writers>1"] = true
+			if st.Nb > 0 && nbl != nil {
+				key := c19Keys - 1
+				count[key]++
+				if w, err := nbl.Write(c19Rec(key*c19GStride+count[key], st.Nb)); err != nil || w != st.Nb {
+					failf("step %d: Write to the neighbour log returned (%d, %v)", i, w, err)
+					return
+				}
+			}
+		} else if c.Mode == "" {
 			var shared []byte
 			for k, n := range st.Lens {
 				if n == 0 { // a legal io.Writer call that carries nothing
@@ -1414,6 +1779,13 @@ func c19Run(c c19Case, root string, r *c19Result) {
 				count[key]++
 				per[k%g] = append(per[k%g], emit{ep, key*c19GStride + count[key], n})
 				r.classes["entry-"+c19Eps[ep].name] = true
+				if c.Api == "pkg" && c19Suppressible(c.Lvl, ep) {
+					e.optional[key*c19GStride+count[key]] = true
+					r.classes["record-filtered-by-level"] = true
+				}
+				if sh := e.shapeOf(key*c19GStride + count[key]); sh.nf > 0 {
+					r.classes[fmt.Sprintf("record-with-%d-field(s)", sh.nf)] = true
+				}
 			}
 			var wg sync.WaitGroup
 			for gi := 0; gi < g; gi++ {
@@ -1437,23 +1809,10 @@ func c19Run(c c19Case, root string, r *c19Result) {
 						case c.Val && form == 2:
 							v = c19Str(pl)
 						}
-						switch em.ep {
-						case 0:
-							cw.Info(v)
-						case 1:
-							cw.Debug(v)
-						case 2:
-							cw.Error(v)
-						case 3:
-							cw.Alert(v)
-						case 4:
-							cw.Stack(v)
-						case 5:
-							cw.Severe(v)
-						case 6:
-							cw.Slow(v)
-						case 7:
-							cw.Stat(v)
+						if c.Api == "pkg" {
+							e.c19PkgEmit(em.ep, em.id, pl, v)
+						} else {
+							e.c19CwEmit(cw, em.ep, em.id, v)
 						}
 						if pz > 0 {
 							time.Sleep(time.Duration(pz*int64(gi+1)) * time.Microsecond)
@@ -1469,6 +1828,9 @@ func c19Run(c c19Case, root string, r *c19Result) {
 		if len(st.Lens) > bufferSize {
 			r.classes["burst-fills-channel"] = true
 		}
+		if len(st.Lens) >= 300 && c.Mode != "" {
+			r.classes["storm>=300-records"] = true
+		}
 		if len(st.Lens) >= bufferSize-1 && len(st.Lens) <= bufferSize+1 {
 			r.classes["burst=channel-capacity+-1"] = true
 		}
@@ -1483,6 +1845,23 @@ func c19Run(c c19Case, root string, r *c19Result) {
 			} else {
 				r.classes["daily-rotation"] = true
 			}
+		}
+	}
+	if c.Mode != "" && c.Bad != 0 {
+		// a value no encoding can carry: whatever the package does with it, it must not panic or
+		// hang, and the records logged before stay where they are
+		e.foreignOK = true
+		r.classes["unencodable-value"] = true
+		if c.Api == "pkg" {
+			Infov(c19BadValue(c.Bad))
+			Errorv(c19BadValue(c.Bad))
+		} else {
+			cw.Info(c19BadValue(c.Bad))
+			cw.Slow(c19BadValue(c.Bad), Field("rid", 1))
+		}
+		kit.Wait()
+		if !check("after logging an unencodable value") {
+			return
 		}
 	}
 	kit.Wait()
@@ -1504,9 +1883,20 @@ func c19Run(c c19Case, root string, r *c19Result) {
 	if c.Mode == "" {
 		l.Write(c19Rec(c19OldBase-1, 20))
 		l.Close()
+		// more calls than the writer's queue holds: each one returns (what it returns is not specified)
+		for k := 0; k < c.Flood; k++ {
+			l.Write(c19Rec(c19OldBase-1, 20))
+		}
 	} else {
 		cw.Info(c19Payload(c19OldBase-1, 20))
 		cw.Close()
+		for k := 0; k < c.Flood; k++ {
+			cw.Info(c19Payload(c19OldBase-1, 20))
+			cw.Error(c19Val{P: c19Payload(c19OldBase-1, 20)})
+		}
+	}
+	if c.Flood > 0 {
+		r.classes["writes-after-Close>queue"] = true
 	}
 	kit.Wait()
 	if !check("after Write-after-Close and a second Close") {
@@ -1604,6 +1994,9 @@ var c19NamePieces = []string{"a", "b", "log", "svc", "x1", "%s", "%d", "%20", "%
 var c19NameCurated = []string{"order%20service", "100%", "%s%d", "a b", "#1", "a*b", "q?", "a[1]", "[", "a]b", "{x}", "$HOME", "back\\Slash",
 	"it's", "\"q\"", "-rf", ".hidden", "trail.", "日本語", "naïve", "%!s(MISSING)", "a%", "*", "?x", "[a-z]og", "bad\uE0FFutf8", "\uE0FF"}
 
+// c19LongDelim: with it the backup name of access.log / a.b.log exceeds NAME_MAX, that of svc does not
+var c19LongDelim = "-" + strings.Repeat("=", 235)
+
 // c19NameGen draws one path component: anything but '/', NUL, "", "." and "..", at most 200 bytes.
 func c19NameGen(rt *rapid.T, label string) string {
 	var s string
@@ -1636,14 +2029,29 @@ func c19GenLogx(rt *rapid.T) c19Case { return c19GenWith(rt, true) }
 
 // c19GenWith: logx=false hands records to RotateLogger.Write directly; logx=true logs them
 // through the package's file writer with the json or plain encoding from 1..4 goroutines.
-func c19GenWith(rt *rapid.T, logx bool) c19Case {
+func c19GenWith(rt *rapid.T, logx bool) c19Case { return c19GenMode(rt, logx, false) }
+
+// c19GenMode: pkg (with logx): the records are logged through logx.Setup and the package-level functions.
+func c19GenMode(rt *rapid.T, logx, pkg bool) c19Case {
 	c := c19Case{}
-	ovh := 0 // upper bound of the bytes logx adds around a payload (timestamp, level, JSON syntax)
+	ovh := 0 // upper bound of the bytes logx adds around a payload (timestamp, level, JSON syntax, fields)
 	if logx {
 		ovh = 110
 		c.Mode = rapid.SampledFrom([]string{"json", "plain"}).Draw(rt, "mode")
 		c.G = rapid.IntRange(1, 4).Draw(rt, "goroutines")
 		c.Val = rapid.Bool().Draw(rt, "val")
+		c.Gf = rapid.SampledFrom([][]int{nil, nil, nil, {1}, {3}, {1, 1, 1}, {2, 1}, {1, 1, 1, 1}, {1, 1, 1, 1, 1}, {2, 2, 1}}).Draw(rt, "globalFields")
+		c.Fl = rapid.IntRange(0, 4).Draw(rt, "fields")
+		for _, n := range c.Gf {
+			ovh += 10 * n // "gN":"GN",
+		}
+		if c.Fl > 0 {
+			ovh += 24 // "rid":<id>,"k":"v",
+		}
+		if pkg {
+			c.Api = "pkg"
+			ovh += 64 // "caller":"logx/<file>:<line>",
+		}
 	} else {
 		c.Buf = rapid.SampledFrom([]string{"", "", "reuse", "zero"}).Draw(rt, "buf")
 	}
@@ -1660,7 +2068,7 @@ func c19GenWith(rt *rapid.T, logx bool) c19Case {
 	}
 	c.Delim = rapid.SampledFrom([]string{"-", ".", "_"}).Draw(rt, "delim")
 	if d := rapid.IntRange(0, 99).Draw(rt, "oddDelim"); d >= 50 && d < 62 && !logx {
-		c.Delim = rapid.SampledFrom([]string{"--", "%s", "%", "*", "[", "#", " ", "é", "\\", "-backup-"}).Draw(rt, "delimOdd")
+		c.Delim = rapid.SampledFrom([]string{"--", "%s", "%", "*", "[", "#", " ", "é", "\\", "-backup-", c19LongDelim}).Draw(rt, "delimOdd")
 	}
 	c.Base = rapid.SampledFrom([]string{"access.log", "svc", "a.b.log"}).Draw(rt, "base")
 	if !logx && rapid.Bool().Draw(rt, "oddBase") {
@@ -1668,7 +2076,18 @@ func c19GenWith(rt *rapid.T, logx bool) c19Case {
 		if rapid.Bool().Draw(rt, "baseExt") {
 			c.Base += ".log"
 		}
+		if rapid.IntRange(0, 4).Draw(rt, "nearNameMax") == 0 {
+			// a file name may be 255 bytes long; the name of its backup is longer
+			want := rapid.IntRange(225, c19NameMax).Draw(rt, "baseLen")
+			if len(c.Base) < want {
+				ext := filepath.Ext(c.Base)
+				c.Base = c.Base[:len(c.Base)-len(ext)] + strings.Repeat("L", want-len(c.Base)) + ext
+			}
+		}
 		c.Bait = c19Witness(c.Base)
+	}
+	if !logx && rapid.IntRange(0, 3).Draw(rt, "directWriters") == 0 {
+		c.G = rapid.IntRange(2, 4).Draw(rt, "writers")
 	}
 	if rapid.Bool().Draw(rt, "oddDir") {
 		c.Dir = c19NameGen(rt, "dir")
@@ -1699,7 +2118,7 @@ func c19GenWith(rt *rapid.T, logx bool) c19Case {
 		if d := rapid.IntRange(0, 999).Draw(rt, "big"); d >= 500 && d < 500+bigOdds && !logx {
 			big = true
 		} else if logx {
-			c.MaxSize = rapid.IntRange(300, 1500).Draw(rt, "maxSize")
+			c.MaxSize = rapid.IntRange(190+ovh, 1390+ovh).Draw(rt, "maxSize")
 		} else {
 			c.MaxSize = rapid.IntRange(64, 512).Draw(rt, "maxSize")
 		}
@@ -1722,8 +2141,9 @@ func c19GenWith(rt *rapid.T, logx bool) c19Case {
 		c.Pre = append(c.Pre, p)
 	}
 	if !c.Subdir {
-		nun := rapid.IntRange(0, 2).Draw(rt, "nunrel")
-		names := []string{"other.log", "readme.txt", c.Base + "x", "x" + c.Base, "other.log-1999-12-01", "zz.gz"}
+		nun := rapid.IntRange(0, 3).Draw(rt, "nunrel")
+		names := []string{"other.log", "readme.txt", c.Base + "x", "x" + c.Base, "other.log-1999-12-01", "zz.gz",
+			"@mal-month", "@mal-bak", "@mal-old", "@mal-word", "@mal-kind", "@mal-gzgz", "@dir", "@dir"}
 		for i := 0; i < nun; i++ {
 			c.Unrel = append(c.Unrel, rapid.SampledFrom(names).Draw(rt, "unrel"))
 		}
@@ -1737,6 +2157,12 @@ func c19GenWith(rt *rapid.T, logx bool) c19Case {
 	var active []int
 	if logx {
 		for _, ep := range rapid.SliceOfNDistinct(rapid.IntRange(0, len(c19Eps)-1), 1, 4, rapid.ID[int]).Draw(rt, "entryPoints") {
+			if pkg && c.Rule == "size" && (ep == 4 || ep == 5) {
+				// the package-level ErrorStack / Severe append a stack trace of unknown length: two of
+				// them in a burst could rotate a file of a few hundred bytes twice within a second,
+				// which the statement excludes; they are logged under the daily rule
+				ep = 2
+			}
 			active = append(active, ep)
 		}
 		for i := range c.Pre {
@@ -1756,6 +2182,21 @@ func c19GenWith(rt *rapid.T, logx bool) c19Case {
 			c.Pre[i].F = rapid.IntRange(0, 1).Draw(rt, "preFile")
 		}
 	}
+	if logx {
+		if rapid.IntRange(0, 7).Draw(rt, "bad") == 0 {
+			c.Bad = rapid.IntRange(1, 2).Draw(rt, "badKind")
+		}
+	}
+	if rapid.IntRange(0, 9).Draw(rt, "closeFlood") == 0 {
+		c.Flood = rapid.IntRange(90, 260).Draw(rt, "nflood")
+	}
+	if d := rapid.IntRange(0, 39).Draw(rt, "refuse"); d == 0 && c.Ln == "" && len(c.PreCur) == 0 && !c.Via && c.Nb == nil {
+		if logx {
+			c.Refuse = rapid.SampledFrom([]string{"no-path", "path-is-file", "no-service"}).Draw(rt, "refuseKind")
+		} else {
+			c.Refuse = rapid.SampledFrom([]string{"file-is-dir", "parent-is-file", "name-256"}).Draw(rt, "refuseKind")
+		}
+	}
 	restarts := !logx && !c.Via && rapid.IntRange(0, 3).Draw(rt, "restarts") == 0
 	century := false
 	nsteps := rapid.IntRange(1, 24).Draw(rt, "nsteps")
@@ -1765,6 +2206,12 @@ func c19GenWith(rt *rapid.T, logx bool) c19Case {
 	floodAt := -1
 	if d := rapid.IntRange(0, 99).Draw(rt, "flood"); c.Rule == "daily" && d >= 40 && d < 52 {
 		floodAt = rapid.IntRange(0, nsteps-1).Draw(rt, "floodAt")
+	}
+	// storm: all goroutines log several hundred short records back to back (daily rule: under the
+	// size rule a burst has to stay below the limit)
+	stormAt := -1
+	if d := rapid.IntRange(0, 99).Draw(rt, "storm"); logx && c.Rule == "daily" && c.G > 1 && d >= 40 && d < 65 {
+		stormAt = rapid.IntRange(0, nsteps-1).Draw(rt, "stormAt")
 	}
 	// model of the bytes in the current file, used only to aim record sizes at the limit
 	cur := 0
@@ -1799,6 +2246,13 @@ func c19GenWith(rt *rapid.T, logx bool) c19Case {
 			nrec := rapid.IntRange(0, 4).Draw(rt, "nrec")
 			if i == floodAt {
 				nrec = rapid.SampledFrom([]int{bufferSize - 1, bufferSize, bufferSize + 1, bufferSize + 2, bufferSize + 40}).Draw(rt, "nflood")
+			}
+			if i == stormAt {
+				nrec = 0
+				ns := rapid.IntRange(300, 700).Draw(rt, "nstorm")
+				for k := 0; k < ns; k++ {
+					st.Lens = append(st.Lens, c19MinLen+k%8)
+				}
 			}
 			for k := 0; k < nrec; k++ {
 				n := rapid.IntRange(c19MinLen, 200).Draw(rt, "len")
@@ -1870,6 +2324,9 @@ func c19GenWith(rt *rapid.T, logx bool) c19Case {
 		}
 		if logx {
 			st.Pz = rapid.SampledFrom([]int64{0, 0, 1, 50, 1000, 20000}).Draw(rt, "pause")
+			if i == stormAt {
+				st.Pz = 0
+			}
 			for range st.Lens {
 				st.Ep = append(st.Ep, rapid.SampledFrom(active).Draw(rt, "ep"))
 			}
